@@ -131,6 +131,17 @@ def _apply(obj, op, X, A, is_list):
         return ["int", len(obj)]
     if k == "iter":
         return ["list", seq(iter(obj))]
+    if k == "iterappend":
+        it = iter(obj)
+        seen = []
+        for _ in range(op["k"]):
+            try:
+                seen.append(next(it))
+            except StopIteration:
+                break
+        obj.append(val(op["v"]))
+        seen.extend(it)
+        return ["list", seq(seen)]
     if k == "eq":
         if is_list:
             return ["int", int(list(obj) == list(op["other"]))]       # the reference list holds tick counts
@@ -249,6 +260,8 @@ def _opc(op):
         return "(%s %s)" % ("OIndex" if k == "index" else "OCount", _valc(op["v"]))
     if k == "eq":
         return "(OEq %s)" % vf.listc(op["other"])
+    if k == "iterappend":
+        return "(OIterAppend %s %s)" % (vf.zc(op["k"]), vf.zc(op["v"]))
     return {"reverse": "OReverse", "clear": "OClear", "len": "OLen", "iter": "OIter"}[k]
 
 
@@ -319,7 +332,9 @@ def _elem(rng, pool):
 
 def _rand_op(rng, n, pool):
     k = rng.choice(["get", "get", "set", "setslice", "setslice", "del", "insert", "append", "extend", "iadd", "pop", "remove",
-                    "reverse", "clear", "index", "count", "len", "iter", "eq"])
+                    "reverse", "clear", "index", "count", "len", "iter", "eq", "iterappend"])
+    if k == "iterappend":
+        return {"op": k, "k": rng.choice([0, 0, 1, 2, n, n + 1, n + 2]), "v": _elem(rng, pool)}
     if k == "eq":
         # == against the same content, a prefix, a repetition of one element, the empty array, other content
         return {"op": k, "other": rng.choice(["same", "prefix", "rep1", "empty", "rep3", "other"])}
